@@ -361,12 +361,16 @@ pub fn n_c14_sort() {
 
 // ---------------------------------------------------------------------------------------------------------
 // native replay bodies for the index harnesses of engine E2 (C04 / C05 / C06): the same small model through the public API:
-// AR-PACKAGES > [P1 (n1) > AR-PACKAGES > Q (q), P2 (n2) > ELEMENTS > SYSTEM s > FIBEX-ELEMENTS > two references]
+// AR-PACKAGES > [P1 (n1) > AR-PACKAGES > [Q (q), Q2 (q2)], P2 (n2) > ELEMENTS > SYSTEM s > FIBEX-ELEMENTS > four references]
+// values: n1, n2, q, m, ra, rb, rc, rd, q2 (length + bytes each), aspect (4 | 5 | 6), which (0: P1, 1: P2, 2: the first reference)
 // ---------------------------------------------------------------------------------------------------------
 #[cfg(not(kani))]
-fn n_index_model() -> (crate::AutosarModel, std::vec::Vec<String>, Element, Element, Element, Element, std::vec::Vec<Element>, u8, u8) {
+struct NIndexModel { model: crate::AutosarModel, strs: std::vec::Vec<String>, pkgs: Element, p1: Element, qe: Element, q2e: Element, p2: Element, fibex: Element, conds: std::vec::Vec<Element>, refs: std::vec::Vec<Element>, aspect: u8, which: u8 }
+
+#[cfg(not(kani))]
+fn n_index_model() -> NIndexModel {
     let mut strs: std::vec::Vec<String> = std::vec::Vec::new();
-    for _ in 0..7 {
+    for _ in 0..9 {
         let n = vk::any_u8() as usize;
         assert!(n <= 8, "VK_REPLAY_SHAPE");
         let b: std::vec::Vec<u8> = (0..n).map(|_| vk::any_u8()).collect();
@@ -378,25 +382,31 @@ fn n_index_model() -> (crate::AutosarModel, std::vec::Vec<String>, Element, Elem
     model.create_file("f", crate::AutosarVersion::LATEST).expect("VK_REPLAY_SHAPE");
     let pkgs = model.root_element().create_sub_element(crate::ElementName::ArPackages).expect("VK_REPLAY_SHAPE");
     let p1 = pkgs.create_named_sub_element(crate::ElementName::ArPackage, &strs[0]).expect("VK_REPLAY_SHAPE");
-    let qe = p1.create_sub_element(crate::ElementName::ArPackages).and_then(|x| x.create_named_sub_element(crate::ElementName::ArPackage, &strs[2])).expect("VK_REPLAY_SHAPE");
+    let inner = p1.create_sub_element(crate::ElementName::ArPackages).expect("VK_REPLAY_SHAPE");
+    let qe = inner.create_named_sub_element(crate::ElementName::ArPackage, &strs[2]).expect("VK_REPLAY_SHAPE");
+    let q2e = inner.create_named_sub_element(crate::ElementName::ArPackage, &strs[8]).expect("VK_REPLAY_SHAPE");
     let p2 = pkgs.create_named_sub_element(crate::ElementName::ArPackage, &strs[1]).expect("VK_REPLAY_SHAPE");
     let fibex = p2.create_sub_element(crate::ElementName::Elements)
         .and_then(|e| e.create_named_sub_element(crate::ElementName::System, "s"))
         .and_then(|s| s.create_sub_element(crate::ElementName::FibexElements)).expect("VK_REPLAY_SHAPE");
     let mut refs = std::vec::Vec::new();
-    for text in [&strs[4], &strs[5], &strs[6]] {
-        let r = fibex.create_sub_element(crate::ElementName::FibexElementRefConditional)
-            .and_then(|c| c.create_sub_element(crate::ElementName::FibexElementRef)).expect("VK_REPLAY_SHAPE");
+    let mut conds = std::vec::Vec::new();
+    for text in [&strs[4], &strs[5], &strs[6], &strs[7]] {
+        let c = fibex.create_sub_element(crate::ElementName::FibexElementRefConditional).expect("VK_REPLAY_SHAPE");
+        let r = c.create_sub_element(crate::ElementName::FibexElementRef).expect("VK_REPLAY_SHAPE");
         r.set_character_data(text.clone()).expect("VK_REPLAY_SHAPE");
         refs.push(r);
+        conds.push(c);
     }
-    (model, strs, pkgs, p1, qe, p2, refs, aspect, which)
+    NIndexModel { model, strs, pkgs, p1, qe, q2e, p2, fibex, conds, refs, aspect, which }
 }
 
 #[cfg(not(kani))]
 pub fn n_rename_step() {
-    let (model, strs, _pkgs, p1, qe, p2, refs, aspect, _which) = n_index_model();
-    let (n1, n2, q, m, ra, rb, rc) = (&strs[0], &strs[1], &strs[2], &strs[3], &strs[4], &strs[5], &strs[6]);
+    let x = n_index_model();
+    let (model, strs, p1, qe, q2e, p2, refs, aspect) = (&x.model, &x.strs, &x.p1, &x.qe, &x.q2e, &x.p2, &x.refs, x.aspect);
+    let (n1, n2, q, m, q2) = (&strs[0], &strs[1], &strs[2], &strs[3], &strs[8]);
+    let texts = [&strs[4], &strs[5], &strs[6], &strs[7]];
     let old1 = format!("/{n1}");
     let dup = m == n2;
     let res = p1.set_item_name(m);
@@ -406,9 +416,9 @@ pub fn n_rename_step() {
         if aspect == 4 {
             vk_check!(dup, "a rename to a free name is rejected");
             vk_check!(p1.item_name().as_deref() == Some(n1.as_str()), "a rejected rename changed the name");
-            vk_check!(model.identifiable_elements().count() == 4, "a rejected rename changed the path index");
+            vk_check!(model.identifiable_elements().count() == 5, "a rejected rename changed the path index");
         }
-        if aspect == 6 { vk_check!(&text_of(&refs[0]) == ra && &text_of(&refs[1]) == rb && &text_of(&refs[2]) == rc, "a rejected rename changed a reference"); }
+        if aspect == 6 { vk_check!(refs.iter().zip(texts).all(|(r, t)| &text_of(r) == t), "a rejected rename changed a reference"); }
         if aspect == 5 { vk_check!(refs.iter().all(|r| listed_once(r)), "a rejected rename changed the referrer lists"); }
         return;
     }
@@ -416,46 +426,64 @@ pub fn n_rename_step() {
     if aspect == 4 {
         vk_check!(!dup, "a rename to the name of a sibling is accepted: two elements with one path");
         vk_check!(p1.item_name().as_deref() == Some(m.as_str()), "the element does not carry the new name");
-        // the index: P1, Q, P2 and the SYSTEM element that carries the references
-        vk_check!(model.identifiable_elements().count() == 4, "the path index has lost or gained entries");
-        for (path, e) in [(new1.clone(), &p1), (format!("{new1}/{q}"), &qe), (format!("/{n2}"), &p2)] {
+        // the index: P1, Q, Q2, P2 and the SYSTEM element that carries the references
+        vk_check!(model.identifiable_elements().count() == 5, "the path index has lost or gained entries");
+        for (path, e) in [(new1.clone(), p1), (format!("{new1}/{q}"), qe), (format!("{new1}/{q2}"), q2e), (format!("/{n2}"), p2)] {
             vk_check!(model.get_element_by_path(&path).as_ref() == Some(e), "an identifiable element is not found under its current path");
         }
     }
-    for (r, old) in refs.iter().zip([ra, rb, rc]) {
+    for (r, old) in refs.iter().zip(texts) {
         if aspect == 6 {
-            let designates = old == &old1 || old.strip_prefix(old1.as_str()).is_some_and(|s| s.starts_with('/'));
-            let want = if designates { format!("{new1}{}", &old[old1.len()..]) } else { old.clone() };
-            vk_check!(text_of(r) == want, "a reference to the renamed element (or below it) was not rewritten, or another reference was changed");
+            let below = old == &old1 || old.strip_prefix(old1.as_str()).is_some_and(|s| s.starts_with('/'));
+            let exists = old == &old1 || *old == format!("{old1}/{q}") || *old == format!("{old1}/{q2}");
+            let follow = if below { format!("{new1}{}", &old[old1.len()..]) } else { String::new() };
+            let now = text_of(r);
+            let ok = if exists { now == follow } else if below { now == follow || &now == old } else { &now == old };
+            vk_check!(ok, "a reference to the renamed element (or to an element below it) was not rewritten, or an unrelated reference was changed");
         }
         if aspect == 5 { vk_check!(listed_once(r), "a reference is not listed (exactly once) under its current text in the referrer lists"); }
+    }
+    if aspect == 5 {
+        let mut keys: std::vec::Vec<String> = refs.iter().map(|r| text_of(r)).collect();
+        keys.sort();
+        keys.dedup();
+        let total: usize = keys.iter().map(|k| model.get_references_to(k).len()).sum();
+        vk_check!(total == 4, "the referrer lists have lost or gained entries");
     }
 }
 
 #[cfg(not(kani))]
 pub fn n_remove_step() {
-    let (model, strs, pkgs, p1, qe, p2, refs, aspect, which) = n_index_model();
-    let (n1, n2, q, ra, rb, rc) = (&strs[0], &strs[1], &strs[2], &strs[4], &strs[5], &strs[6]);
-    let gone = if which == 0 { p1.clone() } else { p2.clone() };
-    let res = pkgs.remove_sub_element(gone.clone());
-    vk_check!(res.is_ok(), "removing a package from AR-PACKAGES is rejected");
+    let x = n_index_model();
+    let (model, strs, aspect, which) = (&x.model, &x.strs, x.aspect, x.which);
+    let (n1, n2, q, q2) = (&strs[0], &strs[1], &strs[2], &strs[8]);
+    let texts = [&strs[4], &strs[5], &strs[6], &strs[7]];
+    // which = 2 removes the first reference element itself (a leaf) from its FIBEX-ELEMENT-REF-CONDITIONAL
+    let (parent, gone) = match which { 0 => (x.pkgs.clone(), x.p1.clone()), 1 => (x.pkgs.clone(), x.p2.clone()), _ => (x.conds[0].clone(), x.refs[0].clone()) };
+    let n_before = parent.sub_elements().count();
+    let res = parent.remove_sub_element(gone.clone());
+    vk_check!(res.is_ok(), "removing the element is rejected");
     if aspect == 4 {
-        vk_check!(pkgs.sub_elements().count() == 1 && pkgs.sub_elements().all(|e| e != gone), "the removed element is still listed by its parent (or a sibling was removed)");
+        vk_check!(parent.sub_elements().count() == n_before - 1 && parent.sub_elements().all(|e| e != gone), "the removed element is still listed by its parent (or a sibling was removed)");
         vk_check!(gone.parent().is_err() && gone.content().count() == 0, "the removed element keeps a parent or content");
-        if which == 0 {
-            vk_check!(model.identifiable_elements().count() == 2, "the path index keeps entries of removed elements or lost entries of other elements");
-            vk_check!(model.get_element_by_path(&format!("/{n2}")).as_ref() == Some(&p2), "an identifiable element that is still part of the model is not found under its path");
-        } else {
-            vk_check!(model.identifiable_elements().count() == 2, "the path index keeps entries of removed elements or lost entries of other elements");
-            vk_check!(model.get_element_by_path(&format!("/{n1}")).as_ref() == Some(&p1) && model.get_element_by_path(&format!("/{n1}/{q}")).as_ref() == Some(&qe), "an identifiable element that is still part of the model is not found under its path");
+        let all = [(format!("/{n1}"), &x.p1), (format!("/{n1}/{q}"), &x.qe), (format!("/{n1}/{q2}"), &x.q2e), (format!("/{n2}"), &x.p2)];
+        let kept: &[(String, &Element)] = match which { 0 => &all[3..], 1 => &all[..3], _ => &all[..] };
+        // + the SYSTEM element below P2
+        let want = kept.len() + if which == 1 { 0 } else { 1 };
+        vk_check!(model.identifiable_elements().count() == want, "the path index keeps entries of removed elements or lost entries of other elements");
+        for (path, e) in kept {
+            vk_check!(model.get_element_by_path(path).as_ref() == Some(*e), "an identifiable element that is still part of the model is not found under its path");
         }
     } else {
-        if which == 1 {
-            vk_check!(model.get_references_to(ra).is_empty() && model.get_references_to(rb).is_empty() && model.get_references_to(rc).is_empty(), "the referrer lists keep references that were removed with their package");
-        } else {
-            let total: usize = { let mut keys = std::vec![ra, rb, rc]; keys.sort(); keys.dedup(); keys.iter().map(|k| model.get_references_to(k).len()).sum() };
-            vk_check!(total == 3, "removing a package changed the referrer lists of references outside it");
+        let kept_refs: std::vec::Vec<(&Element, &String)> = match which { 0 => x.refs.iter().zip(texts).collect(), 1 => std::vec::Vec::new(), _ => x.refs.iter().zip(texts).skip(1).collect() };
+        let mut keys: std::vec::Vec<&String> = texts.to_vec();
+        keys.sort();
+        keys.dedup();
+        let total: usize = keys.iter().map(|k| model.get_references_to(k).len()).sum();
+        vk_check!(total == kept_refs.len(), "the referrer lists keep references that were removed, or lost references that are still part of the model");
+        for (r, t) in kept_refs {
+            vk_check!(model.get_references_to(t).iter().filter(|w| w.upgrade().as_ref() == Some(r)).count() == 1, "a reference that is still part of the model is not listed (exactly once) under its text");
         }
     }
-    let _ = refs;
+    let _ = &x.fibex;
 }
